@@ -93,6 +93,16 @@ def handle (line : String) : String :=
     match o.hex? "file" with
     | some f => runQueriesP o f
     | none => "bad-op"
+  | "skf" =>   -- lines matching (host, port): what KeyError.Want lists for a key that is not in the file
+    match o.hex? "file", (o.get? "kt").bind parseKT, o.hex? "host", o.get? "port" with
+    | some f, some kt, some h, some p =>
+      match readDB kt f with
+      | .error _ => "parse-err"
+      | .ok db =>
+        match db.checkAddr ⟨h, p.toUTF8.toList⟩ 0 with
+        | .keyErr ls => s!"lines:{showNats ls} keygen:same"
+        | v => showVerdict v
+    | _, _, _, _ => "bad-op"
   | "kh" =>
     match o.hex? "file" with
     | some f => runQueries o f
